@@ -62,6 +62,20 @@ theorem C12_accept (f : Icpt σ) (inner : Inner ι β ρ ε) (s s' : σ) (i : ι
                   ext := ext', body := req.body } with
   | mk i' r => cases r <;> simp
 
+/-- What a server handler sees after `Request::from_http` of the request the wrapped service got:
+the interceptor's metadata and extensions (the documented way to hand data from an interceptor
+to an RPC: `extensions_mut().insert(..)` then `extensions().get()`), and the original message. -/
+theorem C12_handler_view (f : Icpt σ) (inner : Inner ι β ρ ε) (s s' : σ) (i : ι) (req : Request β)
+    (md' : Hdrs) (ext' : Ext) (h : f s (req.headers, req.ext) = (s', .ok (md', ext'))) :
+    (call f inner s i req).innerSaw.map fromHttp =
+      some { metadata := md', message := req.body, extensions := ext' } := by
+  rw [(C12_accept f inner s s' i req md' ext' h).1]
+  rfl
+
+/-- Back-pressure: readiness of the intercepted service is the wrapped service's — pending stays
+pending, a readiness error is passed on, and the interceptor plays no part. -/
+theorem C12_poll_ready (innerReady : ι → Poll ε) (i : ι) : pollReady innerReady i = innerReady i := rfl
+
 /-- Accept, as the oracle judges it: all accept clauses of `Spec.Interceptor` hold of what the
 wrapped service saw. -/
 theorem C12_accept_spec [BEq β] [ReflBEq β] (f : Icpt σ) (inner : Inner ι β ρ ε) (s s' : σ) (i : ι)
